@@ -13,7 +13,7 @@ def mutant_table():
         return "(not run yet)"
     res = json.load(open(p))
     cat = {m["id"]: m for m in json.load(open(os.path.join(VERIF, "mutants", "catalog.json")))["mutants"]}
-    rows = ["| mutant | primary | unit tests pass | caught by (quick tier, all 20 checks run) | note |", "|---|---|---|---|---|"]
+    rows = ["| mutant | primary | unit tests pass | caught by (quick tier; final run with the finished harness: the primary property's check and the neighbours listed in the catalog) | note |", "|---|---|---|---|---|"]
     n = caught_primary = caught_any = 0
     for mid, m in cat.items():
         r = res.get(mid)
